@@ -222,12 +222,15 @@ def _work(chunk):
     out = []
     n = 0
     for kind, impl, case in chunk:
-        if kind == 'post':
-            run_post_case(impl, case, out)
-        elif kind == 'count':
-            run_count_case(impl, case, out)
-        else:
-            run_frame_case(impl, case, out)
+        try:
+            if kind == 'post':
+                run_post_case(impl, case, out)
+            elif kind == 'count':
+                run_count_case(impl, case, out)
+            else:
+                run_frame_case(impl, case, out)
+        except report.Livelock as e:
+            out.append(report.livelock_violation(impl, e, {'impl': impl, 'case': case if isinstance(case, dict) else {'packets': case}}))
         n += 1
     return [v.to_json() for v in out], n
 
